@@ -14,6 +14,23 @@ fn par_of(e: u64) -> &'static str {
     if e <= 2 { "p" } else { "q" }
 }
 
+/// a twin of a key name (same Merkle commitment, other total stake / other number of leaves)
+fn key_twin(r: &mut ChaCha20Rng, k: &str) -> String {
+    if k.contains('/') || k == "none" {
+        return k.to_string();
+    }
+    format!("{k}/{}", if below(r, 3) == 0 { "n" } else { "s" })
+}
+
+/// a twin of a parameter name: one of k, m, phi_f changed (/e: phi_f changed below the protocol's
+/// fixed-point precision -- the same parameters for the protocol)
+fn par_twin(r: &mut ChaCha20Rng, p: &str) -> String {
+    if p.contains('/') || p == "none" {
+        return p.to_string();
+    }
+    format!("{p}/{}", pick(r, &["k", "m", "f", "g", "e"]))
+}
+
 fn pick<'a, T>(r: &mut ChaCha20Rng, xs: &'a [T]) -> &'a T {
     &xs[below(r, xs.len() as u64) as usize]
 }
@@ -60,7 +77,36 @@ fn ids(u: &[Value]) -> Vec<String> {
 /// one random alteration of a certificate (in place); returns a short description
 fn alter(r: &mut ChaCha20Rng, c: &mut Value, all_ids: &[String]) -> String {
     let own = c["id"].as_str().unwrap().to_string();
-    match below(r, 12) {
+    match below(r, 17) {
+        12 => {
+            // the certificate's own key, one component changed (the genuine signature stays put)
+            c["avk"] = json!(key_twin(r, c["avk"].as_str().unwrap()));
+            "avkTwin".into()
+        }
+        13 => {
+            // ... and one genuine signer alone signs under the shrunken-stake twin
+            let k = c["avk"].as_str().unwrap().to_string();
+            if !k.contains('/') && k != "none" && c["kind"] == json!("std") {
+                c["avk"] = json!(format!("{k}/s"));
+                c["sigBy"] = json!(format!("{k}/s"));
+                c["signedMsgOk"] = json!(true);
+            }
+            "loneSignerTwin".into()
+        }
+        14 => {
+            c["nextAvk"] = json!(key_twin(r, c["nextAvk"].as_str().unwrap()));
+            c["signedMsgOk"] = json!(below(r, 2) == 0);
+            "nextAvkTwin".into()
+        }
+        15 => {
+            c["params"] = json!(par_twin(r, c["params"].as_str().unwrap()));
+            "paramsTwin".into()
+        }
+        16 => {
+            c["nextParams"] = json!(par_twin(r, c["nextParams"].as_str().unwrap()));
+            c["signedMsgOk"] = json!(below(r, 2) == 0);
+            "nextParamsTwin".into()
+        }
         0 => {
             let mut cands: Vec<String> = all_ids.to_vec();
             cands.push(String::new());
